@@ -126,8 +126,10 @@ class C01(BindSpec):
 
     def streams(self, tier, seed):
         if tier == "quick":
-            return [Stream("valid", "bind.valid", 2000, timeout=0.05), Stream("malformed", "bind.malformed", 1000, timeout=0.05)]
-        return [Stream("valid", "bind.valid", 90000, timeout=0.02), Stream("malformed", "bind.malformed", 40000, timeout=0.02)]
+            return [Stream("valid", "bind.valid", 2000, timeout=0.05), Stream("malformed", "bind.malformed", 1000, timeout=0.05),
+                    Stream("anydest", "bind.any", 400, timeout=0.05)]
+        return [Stream("valid", "bind.valid", 90000, timeout=0.02), Stream("malformed", "bind.malformed", 40000, timeout=0.02),
+                Stream("anydest", "bind.any", 15000, timeout=0.02)]
 
     # ------------------------------------------------------------ verdict
     def expected(self, cfg, s, m):
@@ -676,7 +678,29 @@ def m_c19_f32_double_rounding(d, params):
     return False
 
 
+KEY_RE = re.compile(rb'"((?:[^"\\\\]|\\\\.)*)"\s*:')
+
+
+def m_fastmap_dup_key_null(d, params):
+    """new: SONIC_USE_FASTMAP=1 only: inside an interface{} a duplicate object key whose later value is `null`
+    keeps the earlier value (`{"a":1,"a":null}` gives a:1; encoding/json, jitdec and optdec without fastmap: nil)"""
+    if not d["kind"].startswith("value-differs") or "optdec_fastmap" not in d["kind"]:
+        return False
+    if "any" not in _typ(d) or b"null" not in _doc(d):
+        return False
+    doc = _doc(d)
+    keys = KEY_RE.findall(doc)
+    dups = {k for k in keys if keys.count(k) > 1} if len(keys) < 5000 else set()
+    # some duplicated key is given the value null somewhere
+    if not any(re.search(rb'"' + re.escape(k) + rb'"\s*:\s*null', doc) for k in dups):
+        return False
+    so = d["sonic"]
+    j, o, f = (so.get("jit") or {}), (so.get("optdec") or {}), (so.get("optdec_fastmap") or {})
+    return j.get("val") == o.get("val") and f.get("val") != o.get("val") and f.get("sonic") == "ok"
+
+
 MATCHERS = {
+    "fastmap_dup_key_null_keeps_value": m_fastmap_dup_key_null,
     "c19_neg_zero_literal": m_c19_neg_zero,
     "c19_f32_double_rounding": m_c19_f32_double_rounding,
     "optdec_null_resets_text_unmarshaler": m_optdec_null_text_unmarshaler,
